@@ -13,6 +13,7 @@ from ..core import check, Violation
 from ..sim import machine as M
 
 ID = "C13"
+IMPORTS = ['rig.machine_control.machine_controller']
 LEVEL = "exploration"
 TECHNIQUE = ("reference-model monitor (bounded-file model) over generated "
              "operation histories + wire-level confinement monitor in the "
